@@ -3,19 +3,21 @@
 # Confirms each independently written change (tools/try_seed.py) and runs the property's quick check against it.
 cd "$(dirname "$0")/.."
 SRC=${1:-/tmp/mut_out}; shift
-mkdir -p build/seed_results
+RES=${RESDIR:-build/seed_results}
+mkdir -p $RES
 LIST=$(ls -d "$SRC"/C*/[ab]); [ -n "${REVERSE:-}" ] && LIST=$(echo "$LIST" | tac)
 for d in $LIST; do
   id=$(basename $(dirname $d)); v=$(basename $d); name=${id}_$v
   [ -f "$d/patch.diff" ] && [ -f "$d/demo.py" ] && [ -f "$d/notes.md" ] || continue
-  [ -e build/seed_results/$name.json ] && continue
-  touch build/seed_results/$name.json
-  timeout 3600 python3 tools/try_seed.py "$d" $id --slot=${SLOT:-seed} "$@" > build/seed_results/$name.json 2> build/seed_results/$name.err
+  [ -e $RES/$name.json ] && continue
+  touch $RES/$name.json
+  timeout 3600 python3 tools/try_seed.py "$d" $id --slot=${SLOT:-seed} "$@" > $RES/$name.json 2> $RES/$name.err
   python3 - "$name" <<'PY'
 import json,sys
 n=sys.argv[1]
 try:
-    d=json.load(open(f"build/seed_results/{n}.json"))
+    import os
+    d=json.load(open(os.environ.get("RESDIR","build/seed_results")+f"/{n}.json"))
     print(n,"demo clean/mutant rc:",d.get("demo_clean_rc"),d.get("demo_mutant_rc"),"| tests:",d.get("tests_with_mutant"),"|",{k:(v["rc"],(v.get("what") or "")[:140]) for k,v in d.get("checks",{}).items()},flush=True)
 except Exception as e:
     print(n,"ERROR",e,flush=True)
